@@ -68,6 +68,8 @@ func runC14(r *vhlib.Run) {
 	// lifecycle histories of flate.Reader (Read / Close / Reset in any order over scripted sources)
 	// against the implementation-level model, per call (Flate/ImplLife.v)
 	wfllife(r)
+	// meta.Reader itself against its implementation-level model, per call (Meta/ReaderImpl.v)
+	runWMETAR(r)
 	// bzip2.Reader with Reset between streams against its implementation-level model (Bzip2/Impl.v)
 	wbzimpl(r)
 	depth := 2
